@@ -46,6 +46,8 @@ check("C02", "acknowledged writes survive a crash; recovery yields a history pre
 check("C03", "transactions are all-or-nothing", [
     ob("VerifC03_TxSequential", "pkg/transaction", "symbolic transaction body, commit/rollback, caller buffers overwritten after each call; store equals model; lock released; closed after finish",
        "<=3 ops over 2 keys, optional pre-existing key, buffer reuse on/off"),
+    ob("VerifC03_FailedCommitNoTrace", "pkg/engine", "a commit that fails because one value does not fit a log record (symbolic position, size within [-20,+1] of the limit) leaves no trace, also not after a later write, close and reopen",
+       "3-entry transaction, one oversized entry at position 0..2", reach=("committed", "failed")),
 ], [SIMFS, CLOCK, HASH, BLOOM, RAND, LOG, TIERA], [])
 
 check("C05", "scans: exactly the live keys, once, in order, within bounds", [
@@ -118,6 +120,11 @@ check("C20", "configuration is validated and persists", [
 ], [JSON, LOG], ["byte-exact JSON round trip"])
 
 check("C18", "memtable ordered multi-version map", [
+    ob("VerifC18_TableGetIterate", "pkg/memtable", "MemTable.Put/Delete/Get/NewIterator/SetImmutable: Get returns an entry of maximal sequence number (marker = found-but-deleted); iteration ascending by key, newer versions first, each entry once; an immutable table ignores writes",
+       "<=2 operations, free 1-byte keys, arbitrary sequence numbers below wal.MaxSequenceNumber (ties, non-monotone), tower height <=2", "<=3 operations", q={"maxzeros": 1}, t={"maxzeros": 1}),
+    ob("VerifC18_PoolNewestFirst", "pkg/memtable", "MemTablePool: writes spread over active and switched tables; Get returns the newest version", "<=4 steps over put/delete/switch, one key"),
+    ob("VerifC18_ReaderVsInsert", "pkg/memtable", "one writer (MemTable.Put) vs. one reader (Get / full iteration / Seek(t)+Next*): reader terminates, sorted, sees everything inserted before it started, nothing never inserted, Seek never below its target",
+       "<=2 pre-existing entries + 1 concurrent insert, preemption bound 1, tower height 1", "preemption bound 2, tower height <=2", q={"preempt": 1}, t={"preempt": 2, "maxzeros": 1}, no_validate=True, termination=True),
     ob("VerifC18_FindHighestSeq", "pkg/memtable", "SkipList.Insert/Find: entry of highest sequence number wins, absent keys not found",
        "<=3 inserts, free 1-byte keys, arbitrary 64-bit sequence numbers, tower height <=2", "same, tower height <=3",
        q={"maxzeros": 1}, t={"maxzeros": 2}),
